@@ -11,8 +11,32 @@ import os
 import re
 import sys
 
-MACRO = re.compile(r"\bREGISTER_APIFUNCTION\s*\(\s*([A-Za-z_][A-Za-z0-9_]*)\s*,\s*([A-Za-z_][A-Za-z0-9_]*)\s*,\s*([^;]*?)\)\s*;", re.S)
-DEFINE = re.compile(r"#\s*define\s+REGISTER_APIFUNCTION\s*\(\s*name\s*,\s*ns\s*,\s*callback\s*\)(.*?)(?<!\\)\n", re.S)
+CALL = re.compile(r"\bREGISTER_APIFUNCTION\s*\(")
+
+
+def calls(text):
+    """(start offset, [top-level arguments]) of every REGISTER_APIFUNCTION( … ) in comment/string-free text."""
+    for m in CALL.finditer(text):
+        depth, i, args, cur = 1, m.end(), [], []
+        while i < len(text) and depth:
+            c = text[i]
+            if c in "([{":
+                depth += 1
+            elif c in ")]}":
+                depth -= 1
+                if depth == 0:
+                    break
+            if c == "," and depth == 1:
+                args.append("".join(cur))
+                cur = []
+            else:
+                cur.append(c)
+            i += 1
+        args.append("".join(cur))
+        yield m.start(), [a.strip() for a in args]
+
+
+DEFINE = re.compile(r"#\s*define\s+REGISTER_APIFUNCTION\s*\(\s*(\w+)\s*,\s*(\w+)\s*,\s*(\w+)\s*\)((?:[^\n]*\\\n)*[^\n]*)")
 
 
 class AnchorLost(Exception):
@@ -20,8 +44,66 @@ class AnchorLost(Exception):
 
 
 def strip_comments(text):
-    text = re.sub(r"/\*.*?\*/", lambda m: "\n" * m.group(0).count("\n"), text, flags=re.S)
-    return re.sub(r"//[^\n]*", "", text)
+    """Blank out comments, string/character literals (also raw strings) and `#if 0 … #endif` blocks, keeping
+    every newline, so that only real code is searched: a comment or a log text that mentions the macro is not a
+    registration, and a `/*` or `//` inside a string literal does not start a comment."""
+    out = []
+    i, n = 0, len(text)
+    while i < n:
+        c = text[i]
+        two = text[i:i + 2]
+        if two == "//":
+            j = text.find("\n", i)
+            j = n if j < 0 else j
+            # a line comment continues after a backslash-newline
+            while j < n and text[j - 1] == "\\":
+                k = text.find("\n", j + 1)
+                out.append("\n")
+                j = n if k < 0 else k
+            i = j
+        elif two == "/*":
+            j = text.find("*/", i + 2)
+            j = n if j < 0 else j + 2
+            out.append("\n" * text.count("\n", i, j))
+            i = j
+        elif c == "R" and text[i:i + 2] == 'R"' and (i == 0 or not (text[i - 1].isalnum() or text[i - 1] == "_")):
+            m = re.match(r'R"([^()\\ \n]{0,16})\(', text[i:])
+            if not m:
+                out.append(c)
+                i += 1
+                continue
+            end = ")" + m.group(1) + '"'
+            j = text.find(end, i + m.end())
+            j = n if j < 0 else j + len(end)
+            out.append('""' + "\n" * text.count("\n", i, j))
+            i = j
+        elif c == '"' or c == "'":
+            j = i + 1
+            while j < n and text[j] != c and text[j] != "\n":
+                j += 2 if text[j] == "\\" else 1
+            out.append(c + c)
+            i = min(j + 1, n)
+        else:
+            out.append(c)
+            i += 1
+    text = "".join(out)
+    # `#if 0` blocks (nested conditionals inside are skipped with them)
+    lines = text.split("\n")
+    depth = 0
+    for k, line in enumerate(lines):
+        t = line.strip()
+        if depth:
+            if re.match(r"#\s*if", t):
+                depth += 1
+            elif re.match(r"#\s*endif", t):
+                depth -= 1
+            elif depth == 1 and re.match(r"#\s*(else|elif)", t):
+                depth = 0
+            lines[k] = ""
+        elif re.match(r"#\s*if\s+0\b", t):
+            depth = 1
+            lines[k] = ""
+    return "\n".join(lines)
 
 
 def extract(repo):
@@ -31,9 +113,12 @@ def extract(repo):
     if not os.path.exists(hdr):
         raise AnchorLost("lib/remote/apifunction.hpp not found")
     m = DEFINE.search(open(hdr, encoding="utf-8", errors="replace").read())
-    # the registered key must still be built as  #ns "::" #name
-    if not m or not re.search(r'#\s*ns\s*"::"\s*#\s*name', m.group(1)):
+    # which macro argument becomes the namespace and which the name: the registered key is built as  #A "::" #B
+    key = re.search(r'#\s*(\w+)\s*"::"\s*#\s*(\w+)', m.group(4)) if m else None
+    params = list(m.groups()[:3]) if m else []
+    if not key or key.group(1) not in params or key.group(2) not in params:
         raise AnchorLost('REGISTER_APIFUNCTION no longer registers #ns "::" #name (lib/remote/apifunction.hpp)')
+    ns_pos, name_pos = params.index(key.group(1)), params.index(key.group(2))
     found = []
     for root, _dirs, files in os.walk(lib):
         for fn in sorted(files):
@@ -44,12 +129,16 @@ def extract(repo):
             if "REGISTER_APIFUNCTION" not in raw:
                 continue
             text = strip_comments(raw)
-            for mm in MACRO.finditer(text):
-                if path == hdr and mm.group(1) == "name":
+            for start, args in calls(text):
+                if "define" in text[text.rfind("\n", 0, start) + 1:start]:
                     continue
-                line = text.count("\n", 0, mm.start()) + 1
-                found.append((mm.group(2) + "::" + mm.group(1), " ".join(mm.group(3).split()),
-                              os.path.relpath(path, repo), line))
+                if len(args) > 3 and max(ns_pos, name_pos) < 2:      # commas inside the callback expression
+                    args = args[:2] + [", ".join(args[2:])]
+                if len(args) != 3 or not all(re.fullmatch(r"[A-Za-z_]\w*", args[k]) for k in (ns_pos, name_pos)):
+                    raise AnchorLost("unreadable REGISTER_APIFUNCTION call in %s" % os.path.relpath(path, repo))
+                line = text.count("\n", 0, start) + 1
+                cb = [a for k, a in enumerate(args) if k not in (ns_pos, name_pos)][0]
+                found.append((args[ns_pos] + "::" + args[name_pos], " ".join(cb.split()), os.path.relpath(path, repo), line))
     if not found:
         raise AnchorLost("no REGISTER_APIFUNCTION(...) registration found under lib/")
     names = [f[0] for f in found]
